@@ -133,6 +133,10 @@ def run(ctx, build):
             'multi_batch': 0, 'exceptions': 0}
     distinct = set()
     cfgs = [gen_cfg(rng, ctx.quick()) for _ in range(n_small)] + [gen_cfg(rng, ctx.quick(), big=True) for _ in range(n_big)]
+    # designed, seed-independent: large datasets that are all but complete (a decision taken on a rounded percentage must not
+    # mistake them for finished ones)
+    cfgs += [{'N': 400, 'M': 2, 'mask': [0 if i == 137 else 1 for i in range(400)], 'maxpos': 50, 'cores': 1, 'lazy': False, 'separate': False},
+             {'N': 250, 'M': 1, 'mask': [0 if i == 249 else 1 for i in range(250)], 'maxpos': 3, 'cores': 1, 'lazy': True, 'separate': True}]
     for cfg in cfgs:
         try:
             obs = run_one(ctx, cfg)
